@@ -43,6 +43,7 @@ Variable cap : nat.
 Variable lam : fev -> N.
 Variable vals : list (N * N).
 Hypothesis Hvals : vals_ok vals.
+Variable K : N.                (* bound on the Build counter during the run *)
 
 Notation ws := (map snd vals).
 Notation nv := (length vals).
@@ -57,7 +58,8 @@ Notation cache_inv := (cache_inv vals).
 Record Sim (i : inst) (T : list node) (Dr : list fev) (B : list (N * N * list N)) : Prop := {
   sm_wf : wfTD vals T Dr;
   sm_done : Done lam vals T Dr (i_es i) (l_ctr (i_st i)) (i_st i);
-  sm_fresh : forall e, In e Dr -> id_fresh (eid (fe e));
+  sm_fresh : forall e, In e Dr -> id_fresh K (eid (fe e));
+  sm_ctr : l_ctr (i_st i) <= K;
   sm_proc : forall id, In id (i_proc i) <-> In id (ids_of Dr);
   sm_seg : Seg vals T 0 (map fst B) (l_ldf (i_st i));
   sm_cheat : forall b, In b B -> snd b = ElectionSpec.cheaters_of vals T (snd (fst b)) }.
@@ -131,13 +133,13 @@ Proof.
 Qed.
 
 (* ---------- Process of an event the reference accepts ---------- *)
-Lemma process_step i T Dr B e : Sim i T Dr B -> id_fresh (eid (fe e)) ->
+Lemma process_step i T Dr B e : Sim i T Dr B -> id_fresh K (eid (fe e)) ->
   parents_known T e -> nlookup (eid (fe e)) T = None -> (ecr (fe e) < nv)%nat -> ev_wf T e ->
   r_frame_ok vals T (mk_node nv T e) = true -> few_forkers vals (mk_node nv T e :: T) ->
   exists bl i', step cap [] sample i (OpP (ae e)) = (ObsP None bl (l_ldf (i_st i')) 1, i', false) /\
     Sim i' (mk_node nv T e :: T) (e :: Dr) (B ++ map blk_obs bl) /\ l_ctr (i_st i') = l_ctr (i_st i).
 Proof.
-  intros [W [S [ES0 AV]] FR PR SG CH] Fe PK NL CR EW FO Hff'.
+  intros [W [S [ES0 AV]] FR CT PR SG CH] Fe PK NL CR EW FO Hff'.
   set (n := mk_node nv T e). set (st := i_st i) in *. set (es := i_es i) in *.
   destruct ES0 as [C CI I0 N0].
   pose proof (wfTD_wfT vals T Dr W) as HwfT.
@@ -174,7 +176,7 @@ Proof.
     - cbn [l_idx set_idx]. rewrite Ev', E. reflexivity.
     - intros e0 [<-|He0] _; [exact Hes1 | apply Hes1'; exact He0].
     - intros x Hx. right. exact Hx. }
-  assert (NTn : ~ is_temp (l_ctr st) (nd_id n)) by (apply id_fresh_not_temp; exact Fe).
+  assert (NTn : ~ is_temp (l_ctr st) (nd_id n)) by (apply (id_fresh_not_temp K); [exact CT | exact Fe]).
   assert (CIa : cache_inv (l_ctr st) (set_idx st s') (n :: T) T).
   { intros a b r Hc. destruct (CI a b r Hc) as [Tm|(na & nb & Ia & Ib & R)]; [left; exact Tm|].
     right. exists na, nb. split; [right; exact Ia | auto]. }
@@ -195,7 +197,7 @@ Proof.
   (* the election over the new table *)
   assert (NT' : forall m, In m (n :: T) -> ~ is_temp (l_ctr st) (nd_id m)).
   { intros m [<-|Hm]; [exact NTn|]. destruct (node_event vals T Dr m W Hm) as [e0 [He0 [E0 _]]].
-    rewrite <- E0. apply id_fresh_not_temp, FR, He0. }
+    rewrite <- E0. apply (id_fresh_not_temp K); [exact CT | apply FR, He0]. }
   pose (Sold := fun r => S r /\ exists m g, In m T /\ r = slot m g).
   assert (E2 : ES lam vals (n :: T) (e :: Dr) es1 (l_ctr st) st2 Sold).
   { constructor.
@@ -228,6 +230,7 @@ Proof.
   - exact W'.
   - rewrite CC, Ct2. exact D'.
   - intros e0 [<-|He0]; [exact Fe | apply FR; exact He0].
+  - rewrite CC, Ct2. exact CT.
   - intros id. cbn [to_aevent a_id ids_of map In]. rewrite PR. reflexivity.
   - rewrite map_app. eapply Seg_app.
     + apply (Seg_mono vals T (n :: T) HwfT HwfT' Hff' (fun x Hx => or_intror Hx)). exact SG.
